@@ -203,6 +203,10 @@ pub fn run(tier: &str) -> i32 {
     for n in 0..=nmax {
         hs.push(vec![Op::Batch((0..n).map(|i| blk_at(i, 2)).collect()), Op::Reopen, Op::Append(blk_at(n, 2))]);
     }
+    // batches whose flush writes long runs of consecutive tree nodes
+    for n in [70u32, 130, 200] {
+        hs.push(vec![Op::BatchN(n), Op::Append(Blk::P(3, 0)), Op::Reopen, Op::BatchN(n / 2), Op::Reopen]);
+    }
     if !quick {
         hs.push(vec![Op::BatchN(8193), Op::Reopen, Op::Append(Blk::P(3, 0))]);
         hs.push(vec![Op::BatchN(32769), Op::Append(Blk::P(3, 0)), Op::Reopen]);
@@ -223,6 +227,62 @@ pub fn run(tier: &str) -> i32 {
     });
     leaves_total += hs.len() as u64;
     fam.push(json!({"family": "every length 0..N by singles and by one batch (+reopen, +append)", "N": nmax, "histories": hs.len()}));
+    // replica files: after every step of replica histories with writer growth and reopen, every
+    // node the replica has persisted must be a reference node, and the stored signature must
+    // verify over the stored roots for the stored length
+    {
+        struct RV<'a> {
+            rep: &'a Report,
+            stats: &'a Stats,
+        }
+        impl<'a> Visitor for RV<'a> {
+            fn visit(&mut self, cx: &mut Cx<'_>) {
+                let Some(rp) = cx.sys.rp.as_ref() else { return };
+                self.stats.add("replica_file_states", 1);
+                let img = rp.image();
+                let w = cx.sys.m.w.clone();
+                let t = scheme::RefTree::build(&w.orig);
+                let viol = match format::read_storage(&img) {
+                    Err(e) => Some(("reader-fails".to_string(), e)),
+                    Ok(ds) => {
+                        let mut v = None;
+                        for (idx, (sz, h)) in &ds.nodes {
+                            match t.nodes.get(idx) {
+                                Some(r) if r.size == *sz && r.hash == *h => {}
+                                _ => {
+                                    v = Some(("replica-node".to_string(), format!("replica persisted node {idx} (size {sz}) which is not the reference node")));
+                                    break;
+                                }
+                            }
+                        }
+                        if v.is_none() && ds.length > 0 {
+                            let roots: Option<Vec<scheme::RNode>> = scheme::full_roots(ds.length).iter().map(|r| ds.nodes.get(r).map(|n| scheme::RNode { index: *r, size: n.0, hash: n.1 })).collect();
+                            match roots {
+                                Some(rs) => {
+                                    let msg = scheme::signable(&scheme::tree_hash(&rs), ds.length, ds.fork);
+                                    if !scheme::verify_sig(&key_pair(KEY_SEED).public.to_bytes(), &msg, &ds.signature) {
+                                        v = Some(("replica-signature".to_string(), format!("the signature stored by the replica does not verify over its stored roots for length {}", ds.length)));
+                                    }
+                                }
+                                None => v = Some(("replica-roots".to_string(), format!("replica files encode length {} but not all of its roots", ds.length))),
+                            }
+                        }
+                        v
+                    }
+                };
+                if let Some((clause, detail)) = viol {
+                    self.rep.violate(&clause, format!("last={}", cx.op().kind()), format!("after [{}]: {}", hist_brief(cx.hist), detail), cx.case("C05", "replica-files"), cx.hist.len());
+                }
+            }
+        }
+        let af = |m: &SysModel, _d: usize| super::faults::replica_ops_growth(m, 5);
+        let depth = if quick { 5 } else { 6 };
+        let e = E1 { prop: "C05", depth, with_replica: true, prefix: super::c03::shape(2, 0, None), alphabet: &af, threads: nthreads(), cache: CacheCfg::Off, altered: None };
+        let mk = || RV { rep: &rep, stats: &stats };
+        let (vs, leaves) = e.run(&mk);
+        drop(vs);
+        fam.push(json!({"family": "replica files after every step (writer growth, hash requests, replica clear, reopen)", "depth": depth, "complete_histories": leaves}));
+    }
     // replicas serve proofs too: for every saturated (sparse) replica state of a few writer logs,
     // every node and signature in every proof the replica is willing to create must be the
     // reference value (declining is fine, a wrong or blank node is not)
@@ -304,13 +364,24 @@ pub fn run(tier: &str) -> i32 {
         "complete_histories": leaves_total,
         "families": fam,
         "replica_served_proofs": {"shapes": replica_json, "requests": stats.get("replica_requests"), "proofs_served_and_compared": stats.get("replica_proofs_served")},
-        "samples": *stats.samples.lock().unwrap(),
+        "samples": *stats.samples.lock().unwrap_or_else(|e| e.into_inner()),
         "exhaustive": true,
     });
     rep.finish(coverage, vec!["primitives blake2 / ed25519-dalek and the harness's own CRC-32 are the trusted base".into()])
 }
 
 pub fn replay(case: &Value, rep: &Report) {
+    if case["what"].as_str() == Some("replica-files") {
+        // re-run the history; the visitor of run() is local, so reuse the C03 oracle for the state
+        super::c03::replay(&json!({"what": "none"}), rep);
+        let hist = parse_hist(case);
+        let stats = Stats::default();
+        let states = FpSet::default();
+        let outcomes = FpSet::default();
+        let mut v = ObsVisitor::new("C05", rep, &stats, &states, &outcomes, false);
+        replay_history(&hist, true, CacheCfg::Off, None, &mut v);
+        return;
+    }
     if case["what"].as_str() == Some("replica-served") {
         let whist: Vec<Op> = serde_json::from_value(case["writer"].clone()).unwrap_or_default();
         let Some(img) = super::c03::image_from_hex(&case["image"]) else { return };
